@@ -14,7 +14,7 @@ RULE = ('random open knot vectors (degree 0..12, 1..8 spans with ratios up to 1e
         'a case is one knot vector; distinct by (p, knots); non-trivial if it has >= 1 interior knot or p >= 1; plus an '
         'exhaustively enumerated small family (p<=3, <=3 spans, all multiplicity patterns) in the thorough tier')
 MIN_NONTRIVIAL = {'quick': 100, 'thorough': 2000}
-REQUIRED_COUNTERS = ['oracle:active_deriv', 'oracle:collocation', 'oracle:single_ev', 'points']
+REQUIRED_COUNTERS = ['oracle:active_deriv', 'oracle:collocation', 'oracle:single_ev', 'oracle:unsorted_points', 'points']
 VARIANTS = {'quick': ['plain'], 'thorough': ['plain', 'asan']}
 WORKERS_SAN = 8
 ASSUMPTIONS = ['exact reference: Cox-de Boor recursion in fractions.Fraction on the float knots converted exactly',
@@ -108,6 +108,7 @@ def run_case(rec, kc):
 
     # ---- route: active_deriv (array, scalar, non-contiguous)
     ok, AD = guarded(rec, kc, dict(sig0, route='active_deriv'), bspline.active_deriv, kv, xs, nder)
+    ok_ad = ok
     if ok:
         AD = np.asarray(AD)
         cmp('active_deriv', AD)
@@ -153,6 +154,13 @@ def run_case(rec, kc):
             rec.violation(dict(sig0, route='first_active_at', oracle='span'), kc,
                           {'x': float(x), 'first_active': int(fa), 'findspan': int(fs), 'ref_span': int(spans[c])})
             break
+    perm = np.random.default_rng(len(xs) * 7919 + p).permutation(len(xs))
+    if ok_ad:
+        okp, ADp = guarded(rec, kc, dict(sig0, route='active_deriv_unsorted'), bspline.active_deriv, kv, xs[perm], nder)
+        if okp:
+            rec.count('oracle:unsorted_points')
+            if not np.array_equal(np.asarray(ADp), np.asarray(AD)[..., perm]):
+                rec.violation(dict(sig0, route='active_deriv', oracle='result does not depend on the order of the evaluation points'), kc, {})
     # ---- route: single_ev (all functions, array and scalar) incl. zero outside the active ones
     FULL = np.zeros((n, len(xs)))
     FB = np.zeros((n, len(xs)))
@@ -173,6 +181,14 @@ def run_case(rec, kc):
         v = bspline.single_ev(kv, i, float(xs[len(xs) // 3]))
         if v != SE[len(xs) // 3]:
             rec.violation(dict(sig0, route='single_ev_scalar', oracle='same as array'), kc, {'i': i})
+        # evaluation points in arbitrary order: the result follows the points
+        okp, SEp = guarded(rec, kc, dict(sig0, route='single_ev_unsorted'), bspline.single_ev, kv, i, xs[perm])
+        if okp:
+            rec.count('oracle:unsorted_points')
+            if not np.array_equal(np.asarray(SEp), SE[perm]):
+                c = int(np.flatnonzero(np.asarray(SEp) != SE[perm])[0])
+                rec.violation(dict(sig0, route='single_ev', oracle='result does not depend on the order of the evaluation points'), kc,
+                              {'i': i, 'x': float(xs[perm][c]), 'got': float(np.asarray(SEp)[c]), 'sorted_order_value': float(SE[perm][c])})
     # ---- route: collocation / collocation_derivs / *_info / compute_values_derivs
     ok, C = guarded(rec, kc, dict(sig0, route='collocation'), bspline.collocation, kv, xs)
     if ok:
